@@ -134,11 +134,11 @@ def gen_aligned_frag(r, cfg, reopen=False):
 def gen_history(r, cfg, nops, reopen=False, freeall=None):
     """mostly valid allocate/reallocate/deallocate mix; `reopen` adds sync/reopen/clear"""
     UNIFORM[0] = 0
-    if freeall is None and r.random() < 0.12:
+    if freeall is None and r.random() < 0.18:
         return gen_aligned_frag(r, cfg, reopen)
     ops = [cfg.line(), "check"]
     MODE[0] = r.choice(["", "", "aligned", "solid"])
-    UNIFORM[0] = r.choice([8, 10, 16, 40]) if r.random() < float(__import__("os").environ.get("UNIP", "0.35")) else 0
+    UNIFORM[0] = r.choice([8, 10, 16, 40]) if (MODE[0] == "" and r.random() < 0.55) else 0
     filled = r.random() < (0.85 if MODE[0] == "aligned" else 0.6)
     nalloc = 0
     if filled:
